@@ -438,8 +438,14 @@ func runProp(prop string) int {
 			continue
 		}
 		if ruleHits[r.Name] == 0 && *flagFunc == "" && !r.Optional {
-			fmt.Printf("BROKEN-CHECK callrule %s matched no call site (vacuous)\n", r.Name)
-			return 2
+			// A rule with requirements constrains calls that exist on the unchanged tree
+			// (every run there checks this). With the current code none of them exists: the
+			// guarded step was removed or replaced, and what the rule stood for cannot be
+			// shown any more. Like a contract that no longer binds, this is reported as an
+			// undischarged obligation, not as a pass (and not as a broken check: the unchanged
+			// tree does not get here).
+			rr.unbound = append(rr.unbound, [2]string{"callrule:" + r.Name, "the rule matches no call site in the current code (callees: " + strings.Join(r.Callees, ", ") + ")"})
+			fmt.Printf("UNDECIDED callrule %s matched no call site\n", r.Name)
 		}
 	}
 
